@@ -336,6 +336,10 @@ def units(prop):
         unit.__name__ = "getitem_pipeline"
         return unit
     out.append(mk_full())
+    pipe = [(f"{c or 'nocomp'}_{a}_{b}", setup_pipeline(c, a, b)) for (c, a, b) in
+            ((None, "list0", "list0"), ("stft", "list2", "list2"), ("si", "list2r", "dict"), ("stft", "dict", "list0"), (None, "list2", "list2"))]
+    out.append(mk("pipeline_construction", "command_line", "signals_to_torch_feat_dir", sel_pipeline, "pipeline-construction", contract_pipeline, pipe,
+                  "rtc." + prop.lower()))
     out.append(mk("resume", "command_line", "signals_to_torch_feat_dir", sel_resume, "resume-logic", contract_resume,
                   [("manifest", setup_resume(True)), ("no_manifest", setup_resume(False))], "rtc." + prop.lower()))
     if prop == "C09":
@@ -867,3 +871,172 @@ def unit_config_type(prop="C09"):
                             to_case=_to_case_plan("rtc." + prop.lower()), replay_module="rtc." + prop.lower())
     unit.__name__ = "config_type"
     return unit
+
+
+# ---------------------------------------------------------------------------------------------- S9 the torch tool's pipeline construction
+# signals_to_torch_feat_dir, from `if options.computer_config is None:` to the DataLoader: the dataset is built with
+#   the work list, the pre-processors IN CONFIGURED ORDER each replaced by its torch counterpart (Dither -> PyTorchDither.from_dither,
+#   Preemphasize -> PyTorchPreemphasize.from_preemphasize), the computer's torch counterpart (or None), the post-processors in configured
+#   order each wrapped by PyTorchPostProcessorWrapper.from_postprocessor - as LISTS, i.e. re-iterable for every utterance -, and
+#   options.channel, options.force_as, the base seed and the full-map position table unchanged;
+# the loader iterates that dataset with options.num_workers. Configuration -> object is alias_factory_subclass_from_arg (contract: C08).
+class _Made:
+    def __init__(self, fam, cfg, kind):
+        self.fam, self.cfg, self.kind = fam, cfg, kind
+
+
+class _Wrapped:
+    def __init__(self, how, obj):
+        self.how, self.obj = how, obj
+
+
+class _Dataset:
+    def __init__(self, args):
+        self.args = args
+
+
+def sel_pipeline(fn):
+    out, on = [], False
+    for s in fn.body:
+        txt = ast.unparse(s)
+        if isinstance(s, ast.If) and txt.startswith("if options.computer_config is None"):
+            on = True
+        if on:
+            out.append(s)
+        if on and isinstance(s, ast.Assign) and txt.startswith("loader ="):
+            return out
+    return []
+
+
+def setup_pipeline(comp, pre_form, post_form):
+    """comp: None | 'stft' | 'si';  pre_form / post_form: 'dict' | 'list0' | 'list2' | 'list2r'"""
+    def setup(ex, st):
+        def cfgs(form, fam):
+            if form == "dict":
+                return {"name": Opaque((fam, "cfg", 0), "cfg")}, 1
+            n = 0 if form == "list0" else 2
+            return [Opaque((fam, "cfg", j), "cfg") for j in range(n)], n
+        pre_cfg, npre = cfgs(pre_form, "pre")
+        post_cfg, npost = cfgs(post_form, "post")
+        api.mk_obj(st, "options", "Options", {"computer_config": None if comp is None else Opaque(("comp", "cfg"), "cfg"), "preprocess": pre_cfg,
+                                             "postprocess": post_cfg, "channel": Opaque("CHANNEL", "int"), "force_as": Opaque("FORCE_AS", "str"),
+                                             "num_workers": Opaque("NUM_WORKERS", "int"), "dir": Opaque("DIR", "str")})
+        st.env.update(utt2path=Opaque("UTT2PATH", "dict"), utt2idx=Opaque("UTT2IDX", "dict"), seed=Opaque("SEED", "int"))
+        kinds = ["dither", "preemph"] if pre_form != "list2r" else ["preemph", "dither"]
+        ex.ctx = dict(comp=comp, pre_form=pre_form, post_form=post_form, npre=npre, npost=npost, pre_kinds=kinds[:npre] if pre_form != "dict" else ["dither"])
+        st.ghost.update(datasets=[], loaders=[])
+    return setup
+
+
+def contract_pipeline():
+    def h_factory(ex, st, args, kwargs, node, ev):
+        fam, cfg = args
+        famn = fam.term if isinstance(fam, Opaque) else str(fam)
+        c = ex.ctx
+        if famn == "FrameComputer":
+            return _Made("comp", cfg, c["comp"])
+        if famn == "PreProcessor":
+            j = cfg.term[2] if isinstance(cfg, Opaque) else (cfg["name"].term[2] if isinstance(cfg, dict) else None)
+            return _Made("pre", cfg, c["pre_kinds"][j])
+        if famn == "PostProcessor":
+            return _Made("post", cfg, "post")
+        raise Outside("alias factory family")
+
+    def h_isinstance(ex, st, args, kwargs, node, ev):
+        obj, cls = args
+        cn = cls.term if isinstance(cls, Opaque) else None
+        if isinstance(obj, dict):
+            return cn == "dict"
+        if isinstance(obj, list):
+            return cn == "list"
+        if isinstance(obj, _Made):
+            return {"STFTFrameComputer": "stft", "SIFrameComputer": "si", "Dither": "dither", "Preemphasize": "preemph"}.get(cn) == obj.kind
+        raise Outside("isinstance form")
+
+    def wrap(how):
+        def h(ex, st, args, kwargs, node, ev):
+            if len(args) != 1 or kwargs or not isinstance(args[0], _Made):
+                raise Outside("wrapper call form")
+            return _Wrapped(how, args[0])
+        return h
+
+    def h_dataset(ex, st, args, kwargs, node, ev):
+        d = _Dataset(list(args) + [("kw", k, v) for k, v in kwargs.items()])
+        st.ghost["datasets"] = st.ghost["datasets"] + [d]
+        return d
+
+    def h_loader(ex, st, args, kwargs, node, ev):
+        st.ghost["loaders"] = st.ghost["loaders"] + [(tuple(args), dict(kwargs))]
+        return Opaque("LOADER", "loader")
+
+    def ok(ev):
+        st, c = ev.st, ev.ex.ctx
+        ds, ls = st.ghost["datasets"], st.ghost["loaders"]
+        if len(ds) != 1 or len(ls) != 1:
+            return False
+        a = ds[0].args
+        if len(a) != 8 or any(isinstance(x, tuple) and x and x[0] == "kw" for x in a):
+            return False
+        utt2path, pre, comp, post, channel, force_as, seed, utt2idx = a
+        env, f = st.env, st.fields
+        if utt2path is not env["utt2path"] or utt2idx is not env["utt2idx"] or seed is not env["seed"]:
+            return False
+        if channel is not f[("options", "channel")] or force_as is not f[("options", "force_as")]:
+            return False
+        # pre-processors: a list, configured order, the right torch counterpart each
+        if not isinstance(pre, list) or len(pre) != c["npre"]:
+            return False
+        want_how = {"dither": "PyTorchDither.from_dither", "preemph": "PyTorchPreemphasize.from_preemphasize"}
+        for j, w in enumerate(pre):
+            if not (isinstance(w, _Wrapped) and w.obj.fam == "pre" and w.how == want_how[c["pre_kinds"][j]]):
+                return False
+            cfgj = w.obj.cfg
+            tj = cfgj.term[2] if isinstance(cfgj, Opaque) else (cfgj["name"].term[2] if isinstance(cfgj, dict) else None)
+            if tj != j:
+                return False
+        if not isinstance(post, list) or len(post) != c["npost"]:
+            return False
+        for j, w in enumerate(post):
+            if not (isinstance(w, _Wrapped) and w.obj.fam == "post" and w.how == "PyTorchPostProcessorWrapper.from_postprocessor"):
+                return False
+            cfgj = w.obj.cfg
+            tj = cfgj.term[2] if isinstance(cfgj, Opaque) else (cfgj["name"].term[2] if isinstance(cfgj, dict) else None)
+            if tj != j:
+                return False
+        if c["comp"] is None:
+            if comp is not None:
+                return False
+        else:
+            how = {"stft": "PyTorchSTFTFrameComputer.from_stft_frame_computer", "si": "PyTorchSIFrameComputer.from_si_frame_computer"}[c["comp"]]
+            if not (isinstance(comp, _Wrapped) and comp.how == how and comp.obj.fam == "comp"):
+                return False
+        (largs, lkw) = ls[0]
+        return len(largs) == 1 and largs[0] is ds[0] and set(lkw) == {"num_workers"} and lkw["num_workers"] is f[("options", "num_workers")]
+
+    class _OneShot:
+        """map(...) / a generator: can be iterated ONCE - not what a dataset that serves many utterances needs"""
+        def __init__(self, items):
+            self.items = items
+
+    def h_map(ex, st, args, kwargs, node, ev):
+        if len(args) != 2 or kwargs or not isinstance(args[1], list) or not isinstance(args[0], symex.PyCallable):
+            raise Outside("map form")
+        return _OneShot([args[0].fn(ev, [x], {}, node) for x in args[1]])
+
+    names = ["FrameComputer", "PreProcessor", "PostProcessor", "STFTFrameComputer", "SIFrameComputer", "Dither", "Preemphasize", "dict", "list"]
+    consts = {n_: Opaque(n_, "class") for n_ in names}
+    consts["OK"] = SpecFn(ok)
+    handlers = {"alias_factory_subclass_from_arg": h_factory, "isinstance": h_isinstance, "_FeatureProcessorDataset": h_dataset, "map": h_map,
+                "torch.utils.data.DataLoader": h_loader}
+    class _ClsRef:
+        def __init__(self, name):
+            self.name = name
+
+        def sym_getattr(self, attr, ev, node):
+            h = wrap(f"{self.name}.{attr}")
+            return symex.PyCallable(lambda ev2, a, kw, n2: h(ev2.ex, ev2.st, a, kw, n2, ev2))
+
+    for cname in ("PyTorchDither", "PyTorchPreemphasize", "PyTorchPostProcessorWrapper", "PyTorchSTFTFrameComputer", "PyTorchSIFrameComputer"):
+        consts[cname] = _ClsRef(cname)
+    return Contract(target="command_line:signals_to_torch_feat_dir", uses=["A-PYSEM", "A-TORCH"], consts=consts, handlers=handlers,
+                    ensures=[("dataset_gets_the_configured_pipeline_in_order_as_lists", "OK()")])
